@@ -24,12 +24,14 @@ class TPDomain(EvDomain):
         super().__init__(oracle=oracle)
 
     fields = None         # extra pool fields with a known value on entry (restart-state rows): name -> value
+    extra_names = ()
 
     def field_value(self, path, node):
         last = path[-1]
         if self.fields and last in self.fields: return self.fields[last]
         if last == 'm_isRunning':
             v = self.atom('running'); return v if v is not None else Unknown('m_isRunning')
+        if last in TPDomain.extra_names: return Lin.sym(last)          # a scalar member outside the pool tables (atomic or not): its value on entry, by name
         if last == 'm_maxThreadCount': return Lin.sym('max')
         if last == 'm_expiryTimeout': return Lin.sym('timeout')
         return None
@@ -42,7 +44,10 @@ class TPDomain(EvDomain):
             if all(b_ in ('emplace_back', 'push_back', 'emplace_front', 'push_front', 'size', 'empty', 'begin', 'end', 'back', 'front') for b_ in names):
                 cnt = sum(1 for b_ in names if b_ in ('emplace_back', 'push_back', 'emplace_front', 'push_front'))
                 return Lin.const(cnt) if base == 'size' else (cnt == 0)
-        if base == 'size' and on == 'm_pool': return Lin.const(0) if self.atom('pool_empty') is True else Lin.sym('poolsize')
+        if base == 'size' and on == 'm_pool':
+            # the size on entry plus what this path has inserted since (a worker recorded a moment ago counts)
+            ins_ = sum(1 for k_, _, p_ in st.events if k_ == 'ev' and p_.kind == 'call' and p_.obj == 'm_pool' and p_.name.split('::')[-1] in ('emplace_back', 'push_back', 'emplace_front', 'push_front', 'insert', 'emplace'))
+            return (Lin.const(0) if self.atom('pool_empty') is True else Lin.sym('poolsize')) + Lin.const(ins_)
         if base == 'empty' and on == 'm_pool' and self.atom('pool_empty') is not None: return self.atom('pool_empty')
         if base in ('operator==', 'operator!=') and self.atom('pool_empty') is True:
             ops_ = [ex.read(x.loc, st, n) if isinstance(x, Ref) else x for x in ([ov] + list(vals)) if x is not None]
@@ -72,6 +77,10 @@ class TPDomain(EvDomain):
         elif d.t == {'max': -1, 'poolsize': 1} and d.c == 0: key = 'max_vs_size'; op = flip[op]
         elif d.t == {'max': 1} and d.c == 0: key = 'max_sign'
         elif d.t == {'max': -1} and d.c == 0: key = 'max_sign'; op = flip[op]
+        elif set(d.t) == {'max'} and abs(d.t['max']) == 1 and d.c == -d.t['max'] and self.atom('max_one') is not None and self.atom('max_sign') == '>':
+            # max - 1 (or 1 - max) against 0, with max >= 1: decided by whether the maximum is exactly one
+            sgn = 0 if self.atom('max_one') else (1 if d.t['max'] == 1 else -1)
+            return OPF[op](sgn, 0)
         elif d.t == {'timeout': 1} and d.c == 0: key = 'timeout_sign'
         elif d.t == {'timeout': -1} and d.c == 0: key = 'timeout_sign'; op = flip[op]
         if key is None: return None
@@ -228,6 +237,8 @@ class TPAnalysis:
         f = self.fn.get('run')
         if f is None: return
         site = f.shortloc()
+        c_ = self.facts.cls(TP) or {'fields': []}
+        TPDomain.extra_names = tuple(f_['name'] for f_ in c_['fields'] if f_['name'] not in TP_FIELDS and not f_.get('isptr') and ((f_.get('ctype') or '') in INTEGRAL_T or (f_.get('ctype') or '') == 'bool' or f_.get('atomic')))
         dom = WorkerDomain()
         res = run_paths(self.facts, f, dom, this_path=('this',))
         self.n_worker_rows = len(res)
@@ -377,6 +388,7 @@ class TPAnalysis:
         c = self.facts.cls(TP) or {'fields': []}
         known = {'m_pool', 'm_queue', 'm_condition', 'm_isRunning', 'm_poolMutex', 'm_queueMutex', 'm_maxThreadCount', 'm_expiryTimeout'}
         self.extra = {f_['name']: f_ for f_ in c['fields'] if f_['name'] not in known and not f_.get('isptr') and ((f_.get('ctype') or '') in INTEGRAL_T or (f_.get('ctype') or '') == 'bool' or f_.get('atomic'))}
+        TPDomain.extra_names = tuple(self.extra)
         self.effects = {x: {'stop': set(), 'expiry': set(), 'loop': set()} for x in self.extra}
         self.effect_site = {}
         for P, E in res:
@@ -428,7 +440,7 @@ class TPAnalysis:
                 else: out[x] = None
             return out
 
-        def owner_effect(fname, atoms, state, notes, only_spawning=False):
+        def owner_effect(fname, atoms, state, notes, only_spawning=False, only=None):
             """what one call of an owner-side function does to the extra fields (final values must agree over its normal paths)"""
             g = self.fn.get(fname)
             if g is None or not self.extra: return dict(state)
@@ -437,6 +449,7 @@ class TPAnalysis:
             for P, E in run_paths(self.facts, g, dom):
                 if P.end in ('throw', 'noreturn'): continue
                 if only_spawning and not evs(E, 'thread'): continue
+                if only is not None and not only(E): continue
                 for x in self.extra:
                     ws = [e for e in E if e.kind == 'write' and e.obj == x]
                     if not ws: finals[x].add(('same',)); continue
@@ -449,22 +462,53 @@ class TPAnalysis:
                     v = Lin.const(next(iter(fs))[1])
                     if v != state.get(x): notes.append((x, f'{fname}() leaves it at {v} ({sites.get(x, "")})', v))
                     out[x] = v
+                elif all(f_[0] == 'val' for f_ in fs) and len(fs) <= 3:
+                    # several outcomes, each a constant (e.g. "the pool is now full" yes / no): every one of them is a state to go on from
+                    out[x] = None
+                    alts.setdefault(x, []).extend((Lin.const(f_[1]), f'{fname}() can leave it at {f_[1]} ({sites.get(x, "")})') for f_ in sorted(fs))
                 else: out[x] = None
             return out
 
+        alts = {}
         fresh = {x: init.get(x) for x in self.extra}
         rows.append(('a freshly constructed pool', dict(running=True), {x: v for x, v in fresh.items() if v is not None}, []))
-        started_notes = []
-        started = owner_effect('start', dict(pool_empty=True, queue0_empty=True, max_vs_size='>', max_sign='>', running=True), fresh, started_notes, only_spawning=True)
-        n1 = list(started_notes)
-        exp = worker_effect(started, 'expiry', 1, n1)
-        if any(exp.get(x) != fresh.get(x) for x in self.extra) and any(nt[0] for nt in n1[len(started_notes):]):
-            rows.append(('after the only worker expired', dict(running=True), {x: v for x, v in exp.items() if v is not None}, n1))
-        n2 = list(started_notes)
-        st = worker_effect(started, 'stop', 1, n2)
-        st = owner_effect('stop', dict(timeout_sign='<'), st, n2)
-        n2 = [nt for nt in n2 if st.get(nt[0]) != fresh.get(nt[0])]          # only what makes the restart state differ from a fresh pool
-        rows.append(('after start(); stop()', dict(running=False), {x: v for x, v in st.items() if v is not None}, n2))
+        seen_rows = set()
+        for max_one in (False, True):
+          started_notes = []
+          started = owner_effect('start', dict(pool_empty=True, queue0_empty=True, max_vs_size='>', max_sign='>', running=True, max_one=max_one), fresh, started_notes, only_spawning=True)
+          tag = ' (maximum thread count 1: the first worker fills the pool)' if max_one else ''
+          n1 = list(started_notes)
+          exp = worker_effect(started, 'expiry', 1, n1)
+          # ... or stop() finds the expired worker still in the pool, joins and deletes it
+          n3 = list(n1)
+          st3 = owner_effect('stop', dict(timeout_sign='<'), exp, n3)
+          n3 = [nt for nt in n3 if st3.get(nt[0]) != fresh.get(nt[0])]
+          key_ = ('expstop', tuple(sorted((x, repr(v)) for x, v in st3.items())))
+          if n3 and key_ not in seen_rows and any(st3.get(x) != fresh.get(x) for x in self.extra):
+              seen_rows.add(key_); rows.append(('after the only worker expired and stop() removed it' + tag, dict(running=False, max_one=max_one), {x: v for x, v in st3.items() if v is not None}, n3))
+          # the pool is empty again only once update() has reaped the finished worker: what update() writes on the path that removes it
+          reaps = lambda E_: any(e.kind == 'call' and e.obj == 'm_pool' and e.name.split('::')[-1] in ('erase', 'remove_if', 'erase_if', 'pop_front', 'pop_back', 'clear', 'remove') for e in E_) or any(e.kind == 'call' and strip_targs(e.name) in ('std::erase_if', 'std::erase') for e in E_)
+          if self.fn.get('update') is not None:
+              exp = owner_effect('update', dict(timeout_sign='>', pool_empty=False, running=True), exp, n1, only=reaps)
+          if any(exp.get(x) != fresh.get(x) for x in self.extra) and any(nt[0] for nt in n1[len(started_notes):]):
+              key_ = ('exp', tuple(sorted((x, repr(v)) for x, v in exp.items())))
+              if key_ not in seen_rows:
+                  seen_rows.add(key_); rows.append(('after the only worker expired' + tag, dict(running=True, max_one=max_one), {x: v for x, v in exp.items() if v is not None}, n1))
+          n2 = list(started_notes)
+          st = worker_effect(started, 'stop', 1, n2)
+          st = owner_effect('stop', dict(timeout_sign='<'), st, n2)
+          n2 = [nt for nt in n2 if st.get(nt[0]) != fresh.get(nt[0])]          # only what makes the restart state differ from a fresh pool
+          key_ = ('stop', tuple(sorted((x, repr(v)) for x, v in st.items())))
+          if key_ in seen_rows: continue
+          seen_rows.add(key_)
+          rows.append(('after start(); stop()' + tag, dict(running=False, max_one=max_one), {x: v for x, v in st.items() if v is not None}, n2))
+        # a member that start() can leave at one of several constants and that neither the leaving worker nor stop() writes afterwards:
+        # one restart row per value
+        for x, vs in alts.items():
+            if st.get(x) is not None: continue
+            for v_, how in vs:
+                if v_ == fresh.get(x): continue
+                rows.append((f'after start(); stop() — {how}', dict(running=False), dict({y: w for y, w in st.items() if w is not None}, **{x: v_}), n2 + [(x, how + '; neither the leaving worker nor stop() writes it afterwards', v_)]))
         return rows
 
     # ---- start(): TP.3 (insert end), TP.5, TP.8, TP.10 -----------------------------------------------------------------------
